@@ -142,10 +142,12 @@ CLAIMS: dict[str, tuple[str, str, str, str]] = {
         "(every ASCII punctuation character is escapable by the escape rule, by unescapeAll and is Markdown "
         "punctuation, over tables regenerated from the source); unescape_escape (unescapeAll(escapeAll t) = t for "
         "every text and every entity table: titles, destinations, info strings); escape_punct and "
-        "text/newline_declines_at_backslash (the unit steps of the inline loop on escaped text). MISSING: the "
-        "loop-level theorem (tokenize + fragments_join + text_join of escapeAll t = one text token holding t) and "
-        "the block contexts are decided by the oracle (7 contexts x 4 encodings x 2 presets, expected HTML computed "
-        "from t). Tie: executable inline engine model (text/newline/escape/fragments_join/text_join) vs real "
+        "text/newline_declines_at_backslash (unit steps); inline_literal (Props/C09b.lean: for every text t "
+        "without line feed, every chain text :: mid ++ escape :: post with mid rules declining at a backslash, "
+        "every maxNesting >= 1: inline parse + fragments_join + text_join of escapeAll t = exactly one text token "
+        "holding t — an induction over the real loop model, with the pending-text invariant LitState). MISSING: "
+        "texts with line feeds, the numeric-reference encoding and the block contexts are decided by the oracle "
+        "(7 contexts x 4 encodings x 2 presets, expected HTML computed from t). Tie: executable inline engine model (text/newline/escape/fragments_join/text_join) vs real "
         "ParserInline under rule subsets/maxNesting; unescapeAll vs real. Known finding D12 (table cell, "
         "backslash before pipe).",
         NOTE + "The html5 entity table is an external parameter.",
